@@ -150,6 +150,64 @@ NOTES = {
     'C20-s5': ("PV: annuity-due factor applied to the whole present value, fv included", "caught"),
     'C20-s6': ("XIRR result accepted only if |XNPV(result)| < 1e-4 absolute", "missed: amounts never exceeded 1e4; IRR/XIRR cases repeated with flows scaled by 1e6, 1e9, 1e12, 1e-6"),
     'C20-s7': ("IRR: Newton from guess with a 20-iteration limit", "caught"),
+    # ---- wave 7 (fourth seeds, all 20 properties; seed k of property Cxx is Cxx-s{7+k}) ----
+    'C01-s8': ("number literals converted 'directly': 1E-2, 5E-1 and 0.005% truncate to 0", "caught"),
+    'C01-s9': ("POWER returns -pow(-x,y) for a negative base with a fractional exponent", "missed by C01 (caught by C16): C01's reference left power-domain errors unjudged; it now expects #NUM! / #DIV/0! and has a vector with fractional exponents"),
+    'C01-s10': ("'simplified' look-ahead of the white-space filter: a blank before ')' becomes an intersection", "caught"),
+    'C02-s8': ("an argument-less call standing alone as an argument is not counted (YEAR(TODAY()) -> YEAR())", "missed: zero-argument calls were only generated at top level; they are leaves of every family now"),
+    'C02-s9': ("token-stream memo keyed on the layout-normalised formula text", "missed: needs two parses in one process that differ only in blanks inside a literal / quoted sheet name; 'twins' family parses such formulas in every order"),
+    'C02-s10': ("operand kind decided by the first character: '2020'!A1 becomes a number", "caught"),
+    'C03-s8': ("resolve_ranges collects rows and columns separately: a two-area name becomes the cross product", "missed: names were single rectangles; name 'parts' (two blocks sharing neither rows nor columns)"),
+    'C03-s9': ("evaluated ranges reused until one of their own cells is set", "missed by C03 (caught by C04): C03 gained the 'current' family (range over formula cells, input outside the range changed by three routes)"),
+    'C03-s10': ("'#REF! for a sheet that does not exist', the sheets taken from the stored cells", "missed: every sheet held cells; 'emptysheet' family (sheets without any stored cell, plain and quoted)"),
+    'C04-s8': ("negative-literal folding also folds a negated reference (cached on the AST node)", "caught"),
+    'C04-s9': ("per-run reuse of computed cells, run number per evaluator, stamp on the model's cell", "caught"),
+    'C04-s10': ("extract() shares the constant cells with the source model", "missed (and earlier ruled out of scope, 7.9): set_cell_value calls on the extracted model are not part of the original's history - C04 now sets every input on an extract and expects the original untouched"),
+    'C05-s8': ("argument errors keep their traceback: a constant error cell grows by 4 KB per evaluation", "caught"),
+    'C05-s9': ("one AST per formula text plus the resolved address cached on the node", "caught (patch rebased onto fix 5a0926c)"),
+    'C05-s10': ("one shared cycle-check path per evaluator, not cut back when an evaluation fails", "caught"),
+    'C06-s8': ("constant-time cycle check: the cells of a range get the set without their owner", "caught"),
+    'C07-s8': ("blank shortcut of the ordering comparisons hoisted above the error check", "caught"),
+    'C07-s9': ("POWER computed with ** : complex results raise in the result conversion", "caught"),
+    'C07-s10': ("EXACT registered before it is wrapped by validate_args", "caught"),
+    'C08-s8': ("a blank given for an optional argument silently becomes the default", "caught"),
+    'C08-s9': ("CONCAT / & skips operands whose text is falsy (FALSE, \"false\")", "caught"),
+    'C08-s10': ("function signatures memoised by NAME in FunctionNode.eval", "missed: a name was registered once per history; step S re-registers ADDONE with two parameters"),
+    'C09-s8': ("'=' folds texts with lower(), the ordering operators with upper()", "missed: every text of the alphabet had inverse case mappings; 'straße' / 'STRASSE' added (laws only)"),
+    'C09-s9': ("'=' answers by type when the operand types differ, forgetting that a date is a number", "caught"),
+    'C09-s10': ("a blank recognises the other blank by identity with the BLANK singleton", "missed in the quick tier: the stored empty cell (set to None) was only in the thorough alphabet; moved to quick"),
+    'C10-s8': ("per-function argument plan cached from the FIRST call in the process", "harness error at first: failures depended on which shards a worker had run before; C10 gained the FIRST family (fresh interpreter, opener with few arguments, then poisoned probes) and the runner now lets confirmed violations stand"),
+    'C10-s10': ("Number.__bool__ with a 1e-15 'dust' tolerance", "missed: no non-zero number below 1e-15; tokens 1e-16 and -2.5e-300"),
+    'C11-s8': ("names into ignored sheets dropped by a PREFIX test on the sheet name", "missed: no sheet name was a prefix of another; names-sparse family uses In / Inp"),
+    'C11-s9': ("cached text results that look like numbers load as numbers", "missed: cached texts were words; forms f-str-num (007) and f-str-sci (1.5e3)"),
+    'C11-s10': ("a '[' anywhere in a formula freezes it at its cached result", "missed: no '[' in any formula; form f-bracket with a stale cached value"),
+    'C12-s8': ("date/times persisted as ISO text with a resolution of one second", "missed: snapshots compared values the way Excel does (a date is its serial); they now also carry the exact native value, and the date input has a fractional second"),
+    'C12-s9': ("formulae re-derived from the cells when a model is constructed from a file", "caught"),
+    'C12-s10': ("JSON encoder switched to allow_nan=False: persisting an infinite result raises", "missed: no formula overflowed; B4 of the dict model is =SUM(A1:A3)*1E+308"),
+    'C13-s8': ("named ranges re-attached to 'ranges' by name, not by cells", "missed: range names were not generated; 'range-name' variant with a literal mention of the same rectangle outside every focus"),
+    'C13-s9': ("range membership decided by comparing column LETTERS", "missed: all cells in column B; 'range-za' variant (Y1:AC1)"),
+    'C13-s10': ("extract() prunes name back-links through a list shared with the original", "caught (original-unchanged fingerprint)"),
+    'C14-s8': ("range arrays kept on the evaluator, dropped only by Evaluator.set_cell_value", "missed by C14 (caught by C03 and C04): C14 gained the after-change family"),
+    'C14-s9': ("MAX/MIN folded by hand, seeded with the first value", "caught"),
+    'C14-s10': ("SUM gets the 'up to 255 arguments' check of COUNT, applied to cells", "missed: no rectangle had more than 9 cells; shapes 16x16, 1x256, 300x1, 2x150 (which also showed that COUNT/COUNTA have this defect on the tree - open finding)"),
+    'C15-s8': ("exact MATCH rejects 'absent' keys through a hash set (hash is case-sensitive)", "missed: keys differing from a cell only by case were refused; they are equal under the = operator's equality (C09) and judged now"),
+    'C15-s9': ("type guard of ordering criteria decides 'number' by float()", "caught (column-digit family of wave 6)"),
+    'C15-s10': ("COUNTIFS measures the range length in rows", "missed: criteria ranges were columns; 'block' family (1x2, 1x3, 2x2 ranges)"),
+    'C16-s8': ("DEGREES / RADIANS with the textbook formula overflow near the top of the range", "caught"),
+    'C16-s9': ("_round shortcut that counts decimals in the text form (exponent notation)", "caught"),
+    'C16-s10': ("Number.__mod__ turns a remainder equal to the divisor into 0", "missed: |n/d| was never below one ulp; MOD_TINY pairs"),
+    'C17-s8': ("CONCAT leaves out falsy pieces", "caught"),
+    'C17-s9': ("Number.__str__ cuts a trailing '.0': -0.0 becomes '-0'", "missed: no negative zero; added to VALS"),
+    'C17-s10': ("FIND goes through a shared regex helper without escaping", "caught"),
+    'C18-s8': ("DATE applies the day offset before the year/month shift", "caught (patch rebased onto fix 0870010)"),
+    'C18-s9': ("YEARFRAC takes abs() of the day count instead of ordering the dates", "missed: pairs with the later date first were skipped; their size is now compared with the forward count (sign left open)"),
+    'C18-s10': ("DATEDIF rejects start == end", "caught"),
+    'C19-s8': ("'places' validated only in pad_zeroes, which negative results never reach", "caught"),
+    'C19-s9': ("own digit loop; the guard for zero returns before the padding", "caught"),
+    'C19-s10': ("a float-valued digit string written with '%g' (six significant digits)", "caught"),
+    'C20-s8': ("PV snaps rates below 1e-6 to the zero-rate branch", "missed: smallest non-zero rate was 1e-4; rates +-5e-7"),
+    'C20-s9': ("SLN never returns a negative depreciation", "caught"),
+    'C20-s10': ("XIRR switches numpy's error handling to 'raise' and never back: PV at rate 0 raises afterwards", "harness error at first (process-history dependent), caught since the runner lets confirmed violations stand"),
 }
 
 
